@@ -91,6 +91,22 @@ def replay(ctx):
     ctx.traces_validated = 1 - len(v.violations)
 
 
+def convert_bufcap():
+    """capacity of the read buffer `adlt convert` configures (BUFREADER_CAPACITY in convert.rs); 512 KiB if not recognisable"""
+    import re
+    try:
+        src = open(os.path.join(c.REPO, "src/bin/adlt/convert.rs")).read()
+        m = re.search(r"const\s+BUFREADER_CAPACITY\s*:\s*usize\s*=\s*([0-9_ *]+);", src)
+        if m:
+            v = 1
+            for f in m.group(1).replace("_", "").split("*"):
+                v *= int(f.strip())
+            return v
+    except (OSError, ValueError):
+        pass
+    return 512 * 1024
+
+
 def check(ctx):
     if getattr(ctx, "replay", None):
         return replay(ctx)
@@ -114,7 +130,10 @@ def check(ctx):
     nfiles = 2 if quick else 12
     info = drive(binp, ["--scenarios", scn, "--reps", "1" if quick else "3", "--random", str(nrand), "--seed", str(ctx.seed),
                         "--files", str(nfiles), "--file-msgs", "128" if quick else "600", "--file-big", "4" if quick else "16",
-                        "--adlt", adlt, "--tmp", tmp], trace)
+                        "--adlt", adlt, "--tmp", tmp,
+                        # files whose maximal message starts with r bytes of convert's first buffer fill left, r swept around the
+                        # reader's low mark (DLT_MAX_STORAGE_MSG_SIZE + 4 = 65555): the call site must keep a whole message visible
+                        "--boundary", "65528:65560:1" if quick else "65400:65640:1", "--bufcap", str(convert_bufcap())], trace)
     # (e) TLC validates every recorded execution against the contract
     v = c.validate_trace(ctx, "layout", "LayoutTrace.tla", trace, timeout=3000)
     ctx.add_tlc("trace-validation", v.res)
@@ -141,7 +160,8 @@ def check(ctx):
     ctx.exhaustive = True
     ctx.extra["tlc_records_replayed"] = len(recs)
     ctx.extra["random_messages"] = nrand
-    ctx.extra["files_exported"] = nfiles
+    ctx.extra["files_exported"] = nfiles + info.get("boundary_files", 0)
+    ctx.extra["boundary_files"] = info.get("boundary_files", 0)
     ctx.extra["file_messages_compared"] = nfmsg
     ctx.extra["trace_events"] = info["lines"]
     ctx.extra["paths_hit"] = {"htyp_shapes_of_32": info["shapes"], "payload_0": info["payload_zero"],
